@@ -200,7 +200,7 @@ def p1(h, st):
     if s.deflation_circuits.iterations == 0:
         h.check_close("no deflation circuit: the energy is E", e, E)
     else:
-        h.check("the loop body was entered once for the generic deflation circuit", s.deflation_circuits.iterations == 1)
+        h.shape("the loop body was entered once for the generic deflation circuit", s.deflation_circuits.iterations == 1)
         h.check_close("the accumulated energy is returned", e, e0 + coeff * f)
     h.done()
 
